@@ -361,6 +361,6 @@ func fmtInt(i int64) string {
 
 func init() {
 	Register("C17",
-		"homogeneous lists of strings / ints / non-NaN floats of length 1-40 (1, even, odd; random, already sorted, reverse sorted, duplicate-heavy; extremes MinInt, MaxInt, +-Inf, +-0, +-MaxFloat64, subnormals, empty string, non-ASCII, prefixes of each other), lists of any kinds for Reverse, and lists whose first element is nil/bool/list/object for the panic clause. Oracle: Sort returns the same list, adjacent elements non-decreasing (strings bytewise), the multiset is unchanged (floats by bit pattern), a second Sort changes nothing; Reverse puts element i (identity for containers) at n-1-i and twice restores content and identities; Sort with a bad first element panics and leaves the list unchanged. Non-trivial = sort of length >= 3 not already sorted with a duplicate or an extreme value, reverse of length >= 3, or the panic clause. Distinct = distinct FNV-64a hash of the case JSON.",
+		"homogeneous lists of strings / ints / non-NaN floats of length 1-40 (occasionally 64-129), built through drawn construction routes (shared element wrappers after NewListOf/Concat/SubList, typed-slice origin), optionally followed by a drawn sequence of further Sort/Reverse calls checked against a model, (1, even, odd; random, already sorted, reverse sorted, duplicate-heavy; extremes MinInt, MaxInt, +-Inf, +-0, +-MaxFloat64, subnormals, empty string, non-ASCII, prefixes of each other), lists of any kinds for Reverse, and lists whose first element is nil/bool/list/object for the panic clause. Oracle: Sort returns the same list, adjacent elements non-decreasing (strings bytewise), the multiset is unchanged (floats by bit pattern), a second Sort changes nothing; Reverse puts element i (identity for containers) at n-1-i and twice restores content and identities; Sort with a bad first element panics and leaves the list unchanged. Non-trivial = sort of length >= 3 not already sorted with a duplicate or an extreme value, reverse of length >= 3, or the panic clause. Distinct = distinct FNV-64a hash of the case JSON.",
 		GenC17, CheckC17)
 }
